@@ -396,7 +396,39 @@ def S_xor(a, b):
         return a ^ b
     if _is_boolish(a) and _is_boolish(b):
         return mk(simp(z3.Xor(TB(a), TB(b))))
+    if not isinstance(a, XorSet) and not isinstance(b, XorSet):
+        a, b = _solver_bounds(a), _solver_bounds(b)
+        (la, ha), (lb, hb) = _bnd(a), _bnd(b)
+        if None not in (la, ha, lb, hb) and la >= 0 and lb >= 0 and max(ha, hb) < 256:
+            # small non-negative operands: exact bit decomposition
+            if is_conc(a) and _pyval(a) == 0:
+                return b
+            if is_conc(b) and _pyval(b) == 0:
+                return a
+            ta, tb = TI(a), TI(b)
+            nbits = max(ha, hb).bit_length()
+            tot = z3.IntVal(0)
+            for k in range(nbits):
+                w = 1 << k
+                tot = tot + ((ta / w) % 2 + (tb / w) % 2) % 2 * w
+            return mk(simp(tot), 0, (1 << nbits) - 1)
     return XorSet.make(a, b)
+
+
+def _solver_bounds(a):
+    """tighten the bounds of a symbolic int to [0, 2^k) with the solver when the syntactic interval is too weak"""
+    if not isinstance(a, SV) or a.is_bool() or a.is_real():
+        return a
+    if a.lo is not None and a.hi is not None and a.lo >= 0 and a.hi < 256:
+        return a
+    if not ENGINE.active:
+        return a
+    if not ENGINE.prove(a.t >= 0):
+        return a
+    for k in (1, 2, 3, 4, 8):
+        if ENGINE.prove(a.t < (1 << k)):
+            return SV(a.t, 0, (1 << k) - 1)
+    return a
 
 
 class XorSet:
@@ -854,6 +886,19 @@ class Engine:
         self.trace.append(v)
         self.add(t == v)
         return v
+
+    def prove(self, c):
+        """True iff the path condition entails c (no fork)"""
+        c = simp(c)
+        if z3.is_true(c):
+            return True
+        if z3.is_false(c):
+            return False
+        m = self.model
+        if m is not None and z3.is_false(m.eval(c, model_completion=True)):
+            return False
+        other, _ = self._check(z3.Not(c))
+        return not other
 
     def fresh(self, prefix="v"):
         self.counter += 1
